@@ -14,6 +14,6 @@ pkg=$(python3 -c "import sys; sys.path.insert(0,'/verif/engine'); import run; pr
 mod=$(python3 -c "import sys; sys.path.insert(0,'/verif/engine'); import run; print([x for x in run.load_registry() if x.name=='$h'][0].modpath())")
 export CARGO_NET_OFFLINE=true
 ( ulimit -v 30000000; timeout $to cargo kani -p $pkg --exact --harness $mod --target-dir /var/tmp/kvdev${SLOT}/target-$crate "$@" > /var/tmp/kvdev${SLOT}/$h.log 2>&1 ) || true
-grep -E "^VERIFICATION|Verification Time|^ \*\* |^error|Status: FAILURE|UNSATISFIABLE|Failed Checks" -A0 /var/tmp/kvdev${SLOT}/$h.log | cut -c1-300 | head -40
-grep -B3 "Status: FAILURE" /var/tmp/kvdev${SLOT}/$h.log | grep -E "Description|Location" | cut -c1-300 | head -20
-grep -B3 "Status: UNSATISFIABLE\|Status: UNREACHABLE" /var/tmp/kvdev${SLOT}/$h.log | grep -B1 -A2 "cover" | grep -E "Description" | cut -c1-200 | head
+grep -a -E "^VERIFICATION|Verification Time|^ \*\* |^error|Status: FAILURE|UNSATISFIABLE|Failed Checks" -A0 /var/tmp/kvdev${SLOT}/$h.log | cut -c1-300 | head -40
+grep -a -B3 "Status: FAILURE" /var/tmp/kvdev${SLOT}/$h.log | grep -E "Description|Location" | cut -c1-300 | head -20
+grep -a -B3 "Status: UNSATISFIABLE\|Status: UNREACHABLE" /var/tmp/kvdev${SLOT}/$h.log | grep -B1 -A2 "cover" | grep -E "Description" | cut -c1-200 | head
